@@ -196,6 +196,7 @@ func init() {
 				e := authz.NewMsgExec(addrs[signer], []sdk.Msg{msg})
 				msgs = []sdk.Msg{&e}
 			}
+			stored := storedAuth(app, ctx, addrs[signer])
 			before := hashStores(ctx, keys)
 			res := "ok"
 			func() {
@@ -212,6 +213,9 @@ func init() {
 			cls := fmt.Sprintf("%s.%s.%s.%s", shape, hc.module, hc.name, res)
 			out.Emit(fmt.Sprintf("chk c08.guard.%s.%s tag=authtx.%s.%s.%s %s %s %s %s %s", hc.module, hc.name, shape, hc.module, hc.name, hc.module, hc.name, addrs[signer].String(), res, b2s(changed)),
 				"true", "chk."+shape, false)
+			// on the property's own terms, from the implementation alone: executed ⇒ the transaction's signer holds the role AS STORED
+			out.Emit(fmt.Sprintf("chk c08.stored.%s.%s tag=authtx.stored.%s.%s.%s %s %s %s %s", hc.module, hc.name, shape, hc.module, hc.name, hc.module, hc.name, res, stored),
+				"true", "chk.stored", false)
 			if (shape == "direct" || shape == "wrapped") && !hc.lenient {
 				op := fmt.Sprintf("msg %s %s %s", hc.module, hc.name, addrs[signer].String())
 				if hc.payload != nil {
@@ -231,6 +235,54 @@ func init() {
 			}
 			end()
 		}
+		// a multi-message transaction delivered in a block (kind "tx": baseapp keeps its writes only if every message
+		// succeeded), or the same transaction merely SIMULATED (kind "sim": app.Simulate, as gas estimation does; forged:
+		// signed with a stranger's key — simulation does not verify signatures; nothing is ever written)
+		multi := func(kind string, signer int, items []txItem) {
+			descr := ""
+			for _, it := range items {
+				descr += " " + it.descr(addrs[signer].String())
+			}
+			if kind == "tx" {
+				begin()
+				ctx := dctx()
+				var msgs []sdk.Msg
+				for _, it := range items {
+					msgs = append(msgs, it.hc.build(ctx, addrs[signer].String(), it.k))
+				}
+				before := hashStores(ctx, keys)
+				res := "ok"
+				if dr := deliver(signer, msgs); dr.Code != 0 {
+					res = "err"
+				}
+				changed := hashStores(dctx(), keys) != before
+				out.Emit(fmt.Sprintf("chk c08.txatomic tag=authtx.txatomic %s %s", res, b2s(changed)), "true", "chk.txatomic", false)
+				out.Emit(fmt.Sprintf("tx %d%s", len(items), descr), res, "branch.tx."+res, true)
+				end()
+				return
+			}
+			qctx := app.BaseApp.NewContext(true, header())
+			var msgs []sdk.Msg
+			for _, it := range items {
+				msgs = append(msgs, it.hc.build(qctx, addrs[signer].String(), it.k))
+			}
+			acc := app.AccountKeeper.GetAccount(qctx, addrs[signer])
+			forger := noRole[len(items)%3]
+			tx, err := helpers.GenSignedMockTx(r, encCfgAuth.TxConfig, msgs, sdk.Coins{}, 1500000, "", []uint64{acc.GetAccountNumber()}, []uint64{acc.GetSequence()}, privs[forger])
+			if err != nil {
+				panic(err)
+			}
+			bz, err := encCfgAuth.TxConfig.TxEncoder()(tx)
+			if err != nil {
+				panic(err)
+			}
+			res := "ok"
+			if _, _, err := app.Simulate(bz); err != nil {
+				res = "err"
+			}
+			out.Emit(fmt.Sprintf("sim %d%s", len(items), descr), res, "branch.sim."+res, true)
+		}
+
 		// phase 1: every handler, direct and wrapped, by its role holder and by a stranger; spoofed both ways
 		for _, hc := range cases {
 			if hc.name == "AddAccount" || hc.name == "RemoveAccount" {
@@ -272,6 +324,13 @@ func init() {
 		// phase 2: the table evolves through transactions
 		for out.N < n {
 			k++
+			if rng.Chance(1, 4) {
+				// a dropped state branch holding a grant (or removal) and a role lookup, then the account's own message
+				items, kind, acct, follow := branchScenario(rng, cases, NACC)
+				multi(kind, []int{4, 10, 10, rng.Intn(NACC)}[rng.Intn(4)], items)
+				one(follow, []string{"direct", "wrapped"}[rng.Intn(2)], acct, k)
+				continue
+			}
 			hc := cases[rng.Intn(2)]
 			s := []int{4, 10, 4, 10, 10, rng.Intn(NACC)}[rng.Intn(6)]
 			kk := rng.Intn(len(authRoles) * NACC * 8)
